@@ -103,3 +103,33 @@ c17d!(c17d_key_lookup_bsearch_n2, bsearch, 2, 8);
 c17d!(c17d_key_lookup_bsearch_n3, bsearch, 3, 9);
 c17d!(c17d_key_lookup_bsearch_n4, bsearch, 4, 10);
 c17d!(c17d_key_lookup_bsearch_n5, bsearch, 5, 11);
+
+/// the two access paths after the REAL create_sorted_key_map (std's sort executed on 2..3 elements): both lookups
+/// answer a present key with a record carrying that key, miss an absent key, and the rebuilt hashed map agrees with
+/// the binary search on presence
+fn sorted_then_both<const N: usize>() {
+    let keys: [u32; N] = kani::any();
+    let (records, schema) = keyed_records(&keys);
+    let sb = StringBlock::parse(&mut Src::<1>::new([0], 1), 0, 1).unwrap();
+    let mut rs = RecordSet::new(records, Some(schema), sb);
+    let r = rs.create_sorted_key_map();
+    assert!(r.is_ok(), "create_sorted_key_map fails on a keyed table");
+    let q: u32 = kani::any();
+    let mut present = false;
+    let mut i = 0;
+    while i < N { if keys[i] == q { present = true; } i += 1; }
+    let h = rs.get_record_by_key(q);
+    let b = rs.get_record_by_key_binary_search(q);
+    kani::cover!(h.is_some());
+    match h {
+        Some(r) => assert!(key_of(r) == q, "hashed lookup after create_sorted_key_map returned a record carrying another key"),
+        None => assert!(!present, "hashed lookup after create_sorted_key_map misses a key that is in the table"),
+    }
+    match b {
+        Some(r) => assert!(key_of(r) == q, "binary search after create_sorted_key_map returned a record carrying another key"),
+        None => assert!(!present, "binary search after create_sorted_key_map misses a key that is in the table"),
+    }
+    std::mem::forget(rs);
+}
+c17d!(c17d_sorted_then_both_n2, sorted_then_both, 2, 8);
+c17d!(c17d_sorted_then_both_n3, sorted_then_both, 3, 9);
